@@ -107,6 +107,11 @@ def reset(seed):
     _hash_counter = itertools.count(1)
     _hash_seed = splitmix64(int(seed) & ((1 << 64) - 1))
     simsched.SimLock._counter = 0
+    import pony.orm.asttranslation as asttranslation
+    if hasattr(asttranslation, 'extractors_lock'):
+        # (the lock repair f348fbd added around pre-translation: a module-level lock, re-created per run as a
+        # simulated lock so that a thread parked inside it does not block the others for real)
+        asttranslation.extractors_lock = simsched.SimLock()
     simsched.set_scheduler(None)
     simdb.ctx.reset()
     _databases[:] = []
